@@ -110,6 +110,38 @@ theorem c09_x_breaker_execute_transparent :
        "if err != nil { return fmt.Errorf(\"circuit breaker execute: %w\", err) }",
        "return err"] := rfl
 
+/-- the proxy builds its topologies from the flags as documented: hot tiers use `--hot-replicas` when set (else
+`--replicas`), the long-term tiers always `--replicas`; each host list goes through `stores.NewStoresFromString`, which
+the harness's oracles exercise on every case (replica sets = consecutive groups of that many hosts) -/
+theorem c09_x_proxy_topology_wiring :
+    proxyTopologyCalls = ["*flagHotStores, hotReplicasNum", "*flagHotReadStores, hotReplicasNum",
+        "*flagReadStores, *flagReplicas", "*flagWriteStores, *flagReplicas"] ∧
+      proxyHotReplicas = ["hotReplicasNum := *flagReplicas", "if *flagHotReplicas > 0",
+        "hotReplicasNum = *flagHotReplicas"] := ⟨rfl, rfl⟩
+
+/-- The documented grouping of a host list into replica sets: consecutive groups of `r` hosts. -/
+def groupHosts (r : Nat) : List String → List (List String)
+  | [] => []
+  | h :: t =>
+    if _hr : r = 0 then [] else
+      (h :: t).take r :: groupHosts r ((h :: t).drop r)
+termination_by l => l.length
+decreasing_by simp only [List.length_drop, List.length_cons]; omega
+
+/-- grouping loses and invents no host and keeps the documented order: the replica sets concatenated give the list back -/
+theorem c09_topology_groups_flatten (r : Nat) (hr : 0 < r) (l : List String) :
+    (groupHosts r l).flatten = l := by
+  induction l using groupHosts.induct r with
+  | case1 => simp [groupHosts]
+  | case2 h t h0 => omega
+  | case3 h t h0 ih =>
+    rw [groupHosts]
+    simp only [h0, dite_false, List.flatten_cons, ih]
+    exact List.take_append_drop r (h :: t)
+
+example : groupHosts 2 ["a", "b", "c", "d"] = [["a", "b"], ["c", "d"]] := by
+  simp [groupHosts]
+
 /-! ## Non-vacuity: the hypotheses are met by concrete non-trivial runs -/
 
 /-- 1 hot shard x 2 replicas: first attempt half-fails, second attempt completes the same shard -> acknowledged -/
